@@ -353,7 +353,7 @@ def run_histories(ctx, prop, cases, reqs):
     ctx.note("derived_grids_without_faces_not_judged", sum(1 for r in recs if "outside" in r))
     recs = [r for r in recs if "outside" not in r]
     keep_flags(recs, prop)
-    failed, _, errs = mc.judge(ctx, recs, module="JudgeMeshHist", workers=4, tag="hist")
+    failed, _, errs = mc.judge(ctx, recs, module="JudgeMeshHist", workers=min(8, int(os.environ.get("VERIF_NPROC", "0")) or 8), tag="hist")
     report(ctx, prop, cases, recs, failed, errs)
     return recs, failed, errs
 
@@ -364,20 +364,20 @@ def assemble(ctx, prop, rng, thorough, scope):
     -> (cases, requests)"""
     core = "c02core" if prop == "C02" else "c03core"
     perms = gen_orders(ctx, core)
-    sims = gen_orders(ctx, "all", simulate=1500 if thorough else 300, seed=ctx.seed)
-    sels = gen_orders(ctx, "all", select=True, maxpre=3, simulate=4000 if thorough else 900, seed=ctx.seed + 1)
+    sims = gen_orders(ctx, "all", simulate=1000 if thorough else 300, seed=ctx.seed)
+    sels = gen_orders(ctx, "all", select=True, maxpre=3, simulate=2500 if thorough else 900, seed=ctx.seed + 1)
     sels = [h for h in sels if any(s[0] == "select" for s in h)]
-    duals = gen_orders(ctx, "all", dual=True, simulate=1200 if thorough else 250, seed=ctx.seed + 2, scn="tetra")
-    duals += gen_orders(ctx, "all", select=True, maxpre=2, dual=True, simulate=1600 if thorough else 350, seed=ctx.seed + 3, scn="tetra")
+    duals = gen_orders(ctx, "all", dual=True, simulate=700 if thorough else 250, seed=ctx.seed + 2, scn="tetra")
+    duals += gen_orders(ctx, "all", select=True, maxpre=2, dual=True, simulate=900 if thorough else 350, seed=ctx.seed + 3, scn="tetra")
     duals = [h for h in duals if any(s[0] == "dual" for s in h)]
     ctx.note("orders", {"core_permutations": len(perms), "simulated_all": len(sims), "simulated_with_selection": len(sels), "simulated_with_dual": len(duals)})
     rng.shuffle(duals)
-    duals = duals[: 2800 if thorough else 600]
+    duals = duals[: 1500 if thorough else 600]
     rng.shuffle(sims)
     rng.shuffle(sels)
     # -simulate prints a terminal state once per worker that reaches it: keep the requested numbers
-    sims = sims[: 1500 if thorough else 300]
-    sels = sels[: 4000 if thorough else 900]
+    sims = sims[: 1000 if thorough else 300]
+    sels = sels[: 2500 if thorough else 900]
     cat = catalogue_pool()
     cat_small = [s for s in cat if len(s["mesh"]) <= 15]
     planar = planar_pool(rng, 24 if thorough else 8, 7 if thorough else 5)
@@ -399,7 +399,7 @@ def assemble(ctx, prop, rng, thorough, scope):
                 for j, h in enumerate(perms):
                     add(*make_case(prop, "O:%s:w%d:p%d" % (src["tag"], xw, j), src, h, rng, extra_width=xw))
     else:
-        reps = 3 if thorough else 1
+        reps = 2 if thorough else 1
         for j, h in enumerate(perms * reps):
             src = pool_o[j % len(pool_o)]
             xw = (j // len(pool_o)) % 3
@@ -411,7 +411,7 @@ def assemble(ctx, prop, rng, thorough, scope):
     # --- S: sources that supply tables ----------------------------------------------------------
     pool_s = list(scope) + cat + planar
     rng.shuffle(pool_s)
-    n_s = 4000 if thorough else 1100
+    n_s = 3000 if thorough else 1100
     orders = perms + sims
     rng.shuffle(orders)
     for k in range(n_s):
@@ -427,7 +427,7 @@ def assemble(ctx, prop, rng, thorough, scope):
     # --- M: MPAS-shaped sources -----------------------------------------------------------------
     pool_m = [s for s in list(scope) + cat + planar[:4] if manifold(s)]
     rng.shuffle(pool_m)
-    n_m = 2500 if thorough else 640
+    n_m = 1600 if thorough else 640
     for k in range(n_m):
         src = pool_m[k % len(pool_m)]
         # eoc: MPAS files name by edgesOnCell(j) the edge BEFORE vertex j (measured on the QU sample: 960 of 960 sides)
